@@ -18,6 +18,7 @@ import (
 	"net/url"
 	"os"
 	"path/filepath"
+	"regexp"
 	"sort"
 	"strings"
 	"sync"
@@ -193,6 +194,8 @@ func (s *Server) Register(scope string, sc *Script) { s.scripts.Store(scope, sc)
 func (s *Server) Unregister(scope string)           { s.scripts.Delete(scope) }
 
 // Digest is a function of everything the remote system can depend on.
+var sigParam = regexp.MustCompile(`(keyid|tag)="([^"]*)"`) //nolint:gochecknoglobals
+
 func Digest(r *http.Request, rest string, body []byte) string {
 	h := sha256.New()
 	fmt.Fprintf(h, "%s\n%s\n%s\n", r.Method, rest, r.URL.RawQuery)
@@ -209,6 +212,11 @@ func Digest(r *http.Request, rest string, body []byte) string {
 
 	for _, n := range names {
 		fmt.Fprintf(h, "%s: %s\n", n, strings.Join(r.Header[n], "|"))
+	}
+
+	// an HTTP message signature: who signed (key id, tag), not when
+	for _, m := range sigParam.FindAllStringSubmatch(r.Header.Get("Signature-Input"), -1) {
+		fmt.Fprintf(h, "sig %s=%s\n", m[1], m[2])
 	}
 
 	h.Write([]byte{0})
